@@ -278,110 +278,7 @@ func checkC04(c *Ctx) {
 	}
 
 	// ---- C04.forward ----
-	rf := c.Rule("C04.forward", "Commit/Rollback end every path in the pool's Commit/Rollback or ErrInvalidTransaction; prepared-statement wrappers forward", 6)
-	errInvalid := p.Lookup(pkgGorm, "ErrInvalidTransaction")
-	for _, name := range []string{"Commit", "Rollback"} {
-		f := p.MethodDecl(pkgGorm, "DB", name)
-		c.Touch(f)
-		finfo := f.Pkg.TypesInfo
-		ps, ok := p.EnumPaths(f, nil, 2000)
-		if !ok {
-			rf.Unknown(f.Name(), "paths", f.Body.Pos(), "too many paths")
-		}
-		drv := 0
-		for _, pr := range ps {
-			forwards := pathHasCall(finfo, pr, func(ce *ast.CallExpr) bool {
-				fn, _ := typeutil.Callee(finfo, ce).(*types.Func)
-				k, _, ok := p.driverCallee(fn)
-				return ok && ((name == "Commit" && k == DrvCommit) || (name == "Rollback" && k == DrvRollback))
-			}) != nil
-			invalid := pathHasCall(finfo, pr, func(ce *ast.CallExpr) bool { return isAddErrorOf(finfo, ce, errInvalid) }) != nil
-			nilTx := false
-			for fct := range pr.Facts {
-				if strings.HasPrefix(fct, "T:") && strings.Contains(fct, "IsNil()") {
-					nilTx = true
-				}
-			}
-			if forwards {
-				drv++
-			}
-			okp := forwards || invalid || (name == "Rollback" && nilTx)
-			rf.Check(okp, f.Name(), "path to "+p.Pos(pr.Exit), pr.Exit, "forwards / reports ErrInvalidTransaction", "a path through (*DB)."+name+" neither calls the pool's "+name+" nor reports ErrInvalidTransaction: the transaction silently stays open", "facts: "+strings.Join(pr.Facts.List(), ", "))
-		}
-		rf.Check(drv > 0, f.Name(), "forwarding path exists", f.Body.Pos(), "calls the pool's "+name, "(*DB)."+name+" never calls the pool's "+name)
-		// the pool's verdict is recorded unconditionally: the call is the argument of AddError, or its result
-		// reaches AddError on every path (no error value of the pool is filtered out)
-		gsf := p.Guards(f, nil)
-		for _, call := range callsIn(f) {
-			fn, _ := typeutil.Callee(finfo, call).(*types.Func)
-			k, _, okd := p.driverCallee(fn)
-			if !okd || !((name == "Commit" && k == DrvCommit) || (name == "Rollback" && k == DrvRollback)) {
-				continue
-			}
-			recorded := false
-			for _, oc := range callsIn(f) {
-				if ofn, _ := typeutil.Callee(finfo, oc).(*types.Func); ofn != nil && ofn.Name() == "AddError" && len(oc.Args) == 1 && unparen(oc.Args[0]) == ast.Expr(call) {
-					recorded = true
-				}
-			}
-			if !recorded {
-				if id := assignedLocal(f, call); id != nil {
-					okp, _ := gsf.MustPass(call.Pos(), func(n ast.Node) bool {
-						found := false
-						ast.Inspect(n, func(x ast.Node) bool {
-							if oc, ok := x.(*ast.CallExpr); ok {
-								if ofn, _ := typeutil.Callee(finfo, oc).(*types.Func); ofn != nil && ofn.Name() == "AddError" && len(oc.Args) == 1 {
-									if aid, ok := unparen(oc.Args[0]).(*ast.Ident); ok && finfo.ObjectOf(aid) == finfo.ObjectOf(id) {
-										found = true
-									}
-								}
-							}
-							return true
-						})
-						// the condition node of an `if` that merely contains the call in its init does not count
-						if _, isIf := n.(*ast.IfStmt); isIf {
-							return false
-						}
-						return found
-					})
-					recorded = okp
-				}
-			}
-			rf.Check(recorded, f.Name(), "the pool's "+name+" error is recorded", call.Pos(), "AddError on every path", "(*DB)."+name+" filters the error returned by the pool's "+name+" (some path does not record it): a "+strings.ToLower(name)+" that did not happen - the transaction was already finished, the connection is gone - is reported as success")
-		}
-	}
-	for _, name := range []string{"Commit", "Rollback"} {
-		f := p.MethodDecl(pkgGorm, "PreparedStmtTX", name)
-		c.Touch(f)
-		finfo := f.Pkg.TypesInfo
-		okAll, n := true, 0
-		forwards := false
-		ast.Inspect(f.Body, func(nd ast.Node) bool {
-			rs, ok := nd.(*ast.ReturnStmt)
-			if !ok || len(rs.Results) != 1 {
-				return true
-			}
-			n++
-			switch e := unparen(rs.Results[0]).(type) {
-			case *ast.CallExpr:
-				fn, _ := typeutil.Callee(finfo, e).(*types.Func)
-				k, _, ok := p.driverCallee(fn)
-				if ok && ((name == "Commit" && k == DrvCommit) || (name == "Rollback" && k == DrvRollback)) && recvOfExpr(finfo, e) == recvName(f)+".Tx" {
-					forwards = true
-				} else {
-					okAll = false
-				}
-			case *ast.Ident:
-				if finfo.Uses[e] != errInvalid {
-					okAll = false
-				}
-			default:
-				okAll = false
-			}
-			return true
-		})
-		rf.Check(okAll && forwards && n >= 1, f.Name(), "forwards to the wrapped transaction", f.Body.Pos(), "return tx.Tx."+name+"() / ErrInvalidTransaction", "PreparedStmtTX."+name+" does not return the result of the wrapped transaction's "+name)
-	}
+	checkTxForward(c, c.Rule("C04.forward", "Commit/Rollback end every path in the pool's Commit/Rollback or ErrInvalidTransaction; prepared-statement wrappers forward", 6))
 
 	// ---- C04.tx-bound ----
 	// with prepared statements, every statement of a transaction must be re-bound to it (Tx.StmtContext);
@@ -560,4 +457,115 @@ func recvOfExpr(info *types.Info, ce *ast.CallExpr) string {
 		return canon(info, sel.X)
 	}
 	return ""
+}
+
+// checkTxForward: (*DB).Commit / (*DB).Rollback end every path in the pool's Commit/Rollback (recorded) or in
+// ErrInvalidTransaction; the prepared-statement wrappers forward.  C04.forward; instantiated for C05 as
+// C05.finish-forward because the implicit transaction of a write is finished through the same two methods.
+func checkTxForward(c *Ctx, rf *Rule) {
+	p := c.P
+	errInvalid := p.Lookup(pkgGorm, "ErrInvalidTransaction")
+	for _, name := range []string{"Commit", "Rollback"} {
+		f := p.MethodDecl(pkgGorm, "DB", name)
+		c.Touch(f)
+		finfo := f.Pkg.TypesInfo
+		ps, ok := p.EnumPaths(f, nil, 2000)
+		if !ok {
+			rf.Unknown(f.Name(), "paths", f.Body.Pos(), "too many paths")
+		}
+		drv := 0
+		for _, pr := range ps {
+			forwards := pathHasCall(finfo, pr, func(ce *ast.CallExpr) bool {
+				fn, _ := typeutil.Callee(finfo, ce).(*types.Func)
+				k, _, ok := p.driverCallee(fn)
+				return ok && ((name == "Commit" && k == DrvCommit) || (name == "Rollback" && k == DrvRollback))
+			}) != nil
+			invalid := pathHasCall(finfo, pr, func(ce *ast.CallExpr) bool { return isAddErrorOf(finfo, ce, errInvalid) }) != nil
+			nilTx := false
+			for fct := range pr.Facts {
+				if strings.HasPrefix(fct, "T:") && strings.Contains(fct, "IsNil()") {
+					nilTx = true
+				}
+			}
+			if forwards {
+				drv++
+			}
+			okp := forwards || invalid || (name == "Rollback" && nilTx)
+			rf.Check(okp, f.Name(), "path to "+p.Pos(pr.Exit), pr.Exit, "forwards / reports ErrInvalidTransaction", "a path through (*DB)."+name+" neither calls the pool's "+name+" nor reports ErrInvalidTransaction: the transaction silently stays open", "facts: "+strings.Join(pr.Facts.List(), ", "))
+		}
+		rf.Check(drv > 0, f.Name(), "forwarding path exists", f.Body.Pos(), "calls the pool's "+name, "(*DB)."+name+" never calls the pool's "+name)
+		// the pool's verdict is recorded unconditionally: the call is the argument of AddError, or its result
+		// reaches AddError on every path (no error value of the pool is filtered out)
+		gsf := p.Guards(f, nil)
+		for _, call := range callsIn(f) {
+			fn, _ := typeutil.Callee(finfo, call).(*types.Func)
+			k, _, okd := p.driverCallee(fn)
+			if !okd || !((name == "Commit" && k == DrvCommit) || (name == "Rollback" && k == DrvRollback)) {
+				continue
+			}
+			recorded := false
+			for _, oc := range callsIn(f) {
+				if ofn, _ := typeutil.Callee(finfo, oc).(*types.Func); ofn != nil && ofn.Name() == "AddError" && len(oc.Args) == 1 && unparen(oc.Args[0]) == ast.Expr(call) {
+					recorded = true
+				}
+			}
+			if !recorded {
+				if id := assignedLocal(f, call); id != nil {
+					okp, _ := gsf.MustPass(call.Pos(), func(n ast.Node) bool {
+						found := false
+						ast.Inspect(n, func(x ast.Node) bool {
+							if oc, ok := x.(*ast.CallExpr); ok {
+								if ofn, _ := typeutil.Callee(finfo, oc).(*types.Func); ofn != nil && ofn.Name() == "AddError" && len(oc.Args) == 1 {
+									if aid, ok := unparen(oc.Args[0]).(*ast.Ident); ok && finfo.ObjectOf(aid) == finfo.ObjectOf(id) {
+										found = true
+									}
+								}
+							}
+							return true
+						})
+						// the condition node of an `if` that merely contains the call in its init does not count
+						if _, isIf := n.(*ast.IfStmt); isIf {
+							return false
+						}
+						return found
+					})
+					recorded = okp
+				}
+			}
+			rf.Check(recorded, f.Name(), "the pool's "+name+" error is recorded", call.Pos(), "AddError on every path", "(*DB)."+name+" filters the error returned by the pool's "+name+" (some path does not record it): a "+strings.ToLower(name)+" that did not happen - the transaction was already finished, the connection is gone - is reported as success")
+		}
+	}
+	for _, name := range []string{"Commit", "Rollback"} {
+		f := p.MethodDecl(pkgGorm, "PreparedStmtTX", name)
+		c.Touch(f)
+		finfo := f.Pkg.TypesInfo
+		okAll, n := true, 0
+		forwards := false
+		ast.Inspect(f.Body, func(nd ast.Node) bool {
+			rs, ok := nd.(*ast.ReturnStmt)
+			if !ok || len(rs.Results) != 1 {
+				return true
+			}
+			n++
+			switch e := unparen(rs.Results[0]).(type) {
+			case *ast.CallExpr:
+				fn, _ := typeutil.Callee(finfo, e).(*types.Func)
+				k, _, ok := p.driverCallee(fn)
+				if ok && ((name == "Commit" && k == DrvCommit) || (name == "Rollback" && k == DrvRollback)) && recvOfExpr(finfo, e) == recvName(f)+".Tx" {
+					forwards = true
+				} else {
+					okAll = false
+				}
+			case *ast.Ident:
+				if finfo.Uses[e] != errInvalid {
+					okAll = false
+				}
+			default:
+				okAll = false
+			}
+			return true
+		})
+		rf.Check(okAll && forwards && n >= 1, f.Name(), "forwards to the wrapped transaction", f.Body.Pos(), "return tx.Tx."+name+"() / ErrInvalidTransaction", "PreparedStmtTX."+name+" does not return the result of the wrapped transaction's "+name)
+	}
+
 }
